@@ -165,6 +165,33 @@ pub fn mem_prop(prop: &str) -> &'static str {
     }
 }
 
+/// A source iterator whose `size_hint` has one of the shapes real sources have - and, for the safety
+/// checks, shapes that LIE: "`size_hint()` … must not be trusted to e.g. omit bounds checks in unsafe code.
+/// An incorrect implementation of `size_hint()` should not lead to memory safety violations" (std docs).
+pub struct Hinted<I> {
+    pub it: I,
+    pub mode: u8,
+}
+pub const HINT_MODES: [&str; 7] = ["exact", "(0,None)", "(lo,None)", "(0,Some(MAX))", "lies:(0,Some(0))", "lies:(0,Some(1))", "lies:(MAX,None)"];
+impl<I: Iterator> Iterator for Hinted<I> {
+    type Item = I::Item;
+    fn next(&mut self) -> Option<I::Item> {
+        self.it.next()
+    }
+    fn size_hint(&self) -> (usize, Option<usize>) {
+        let (lo, hi) = self.it.size_hint();
+        match self.mode {
+            0 => (lo, hi),
+            1 => (0, None),
+            2 => (lo, None),
+            3 => (0, Some(usize::MAX)),
+            4 => (0, Some(0)),
+            5 => (0, Some(1)),
+            _ => (usize::MAX, None),
+        }
+    }
+}
+
 /// Ways of consuming an iterator other than a plain `next()` loop: std adaptor and consumer
 /// methods that an iterator type may override (nth, last, count, fold, ...) or that are built on
 /// such overrides (skip -> nth, step_by -> nth, for_each -> fold, ...).
